@@ -113,4 +113,10 @@ TEXT = {
         "note": NOTE + " Python's fractions and the JSON reader are part of the trusted base.",
         "technique": "runtime monitor: black-box differential testing of the built binaries against exact brute-force counting and an independent JSON reader",
     },
+    "C18": {
+        "level": "Exploration by runtime monitoring at the ABI boundary: the exported extern \"C\" symbols are called like a C client would, every call is mirrored natively and checked against the truth-table oracle, diagrams are observed only through the C accessors, counts are compared bit-for-bit; the same workload runs under Miri, AddressSanitizer and valgrind memcheck in the thorough tier.",
+        "design_ref": "DESIGN.md section 4, C18",
+        "note": NOTE + " The extern declarations in the harness are the stand-in for the C header.",
+        "technique": "runtime monitor: differential call-sequence checking (C ABI vs native vs truth-table oracle) + Miri / AddressSanitizer / valgrind memcheck legs",
+    },
 }
